@@ -13,7 +13,7 @@ answer. Choice families:
   sep   statement separator filler in scripts
 """
 
-WS_REQ = [' ', '  ', '\t', '\n', '\r\n', ' \n ']
+WS_REQ = [' ', '  ', '\t', '\n', '\r\n', ' \n ', '\n    ']
 WS_INNER = [' ', '  ', '\t', '\n', '\r\n']
 COMMENTS = [' /* c */ ', ' -- c\n', ' /*+ h */ ', ' --+ h\n', ' # c\n', '/* c */', '\n-- c\n',
             ' /* a\n b */ ', ' /* a *//* b */', ' -- a\n-- b\n', ' /* a */ -- b\n', ' /*+ h *//* c */ ',
@@ -445,6 +445,9 @@ class Builder:
             if self.pick(k + '.o2', [False, True]):
                 self.p(',', 'opt')
                 self.colref(k + '.o2c', 'p', 'opt', ' ')
+                d2 = self.pick(k + '.o2dir', [None, 'asc', 'desc'])
+                if d2:
+                    self.kw(d2)
         if depth == 0 and self.pick(k + '.into', [False, True]):
             self.kw('into')
             self.emit('outfile', 'name')
@@ -640,6 +643,7 @@ SEEDS = [
     ('select-group-having-order-limit', 'select', {'s.sel.group': True, 's.sel.having': True, 's.sel.order': True,
                                                    's.sel.limit': True, 's.sel.dir': 'desc', 's.sel.items.n': 2,
                                                    's.sel.items.1.e': 'func'}),
+    ('select-order-two-keys', 'select', {'s.sel.order': True, 's.sel.dir': 'desc', 's.sel.o2': True, 's.sel.o2dir': 'asc'}),
     ('select-subquery-from', 'select', {'s.sel.t0.kind': 'subq', 's.sel.where': True}),
     ('select-in-subquery', 'select', {'s.sel.where': True, 's.sel.w': 'insel'}),
     ('select-in-subquery-where', 'select', {'s.sel.where': True, 's.sel.w': 'insel', 's.sel.w.s.where': True}),
